@@ -543,12 +543,13 @@ def run_case(case, ctx=None):
     fresh_process = bool(case.get("fresh"))
     cnt = (lambda k: ctx.count(k)) if ctx is not None else (lambda k: None)
     what = describe(case)
-    oa, _, _ = run_pipeline(case, "a")
-    ob, _, _ = run_pipeline(case, "b")
     # (i) same seeds, different global states and foreign interleavings
-    for o, nm in ((oa, "first"), (ob, "second")):
-        if o.disturbed is not None:
-            return Failure("oracle", f"global random state disturbed by {o.disturbed} ({nm} run) :: {what}")
+    oa, _, _ = run_pipeline(case, "a")
+    if oa.disturbed is not None:
+        return Failure("oracle", f"global random state disturbed by {oa.disturbed} (first run) :: {what}")
+    ob, _, _ = run_pipeline(case, "b")
+    if ob.disturbed is not None:
+        return Failure("oracle", f"global random state disturbed by {ob.disturbed} (second run) :: {what}")
     d = first_diff(oa, ob)
     if d is not None:
         return Failure("oracle", f"same seeds, different global random state -> different results: {d} :: {what}",
@@ -828,7 +829,7 @@ def minimise(case, fail):
 
     tries = 0
     changed = True
-    while changed and tries < 24:
+    while changed and tries < 12:
         changed = False
         cands = []
         for i in range(len(case["emitters"])):
@@ -854,22 +855,17 @@ def minimise(case, fail):
                 break
 
 
-def signature(case, fail, final=False):
-    """Identity of a failure for reporting each distinct symptom once."""
+def signature(case, fail):
+    """Identity of a failure, for reporting each distinct symptom once: the archive matters only for
+    construction-time symptoms, nothing but the call for a disturbed global state, the emitters otherwise."""
     label = fail.what.split(" :: ")[0]
     label = re.sub(r"\[[^\]]*\]|-?\d[\d.e+-]*", "#", label)[:120]
-    arch = (case["archive"]["kind"], case["archive"].get("method"))
-    ems = tuple(sorted({e["kind"] + "/" + str(e.get("es", "")) + "/" + str(e.get("ranker", ""))
-                        for e in case["emitters"]}))
-    if not final:
-        return (label, arch, ems)
-    # on minimised cases: the archive matters only for construction-time symptoms, the emitters for the others
     label = re.sub(r" \((first|second|pickled|changed-seed) run\)", "", label)
     if "centroids" in label or "archive constructor" in label:
-        return (label, arch, None)
+        return (label, case["archive"]["kind"], case["archive"].get("method"))
     if "global random state disturbed" in label:
-        return (label, None, None)
-    return (label, None, tuple(sorted({e["kind"] + "/" + str(e.get("es", "")) for e in case["emitters"]})))
+        return (label,)
+    return (label, tuple(sorted({e["kind"] + "/" + str(e.get("es", "")) for e in case["emitters"]})))
 
 
 def nontrivial(case):
@@ -916,7 +912,10 @@ def run(ctx):
         "dqd": (ctx.n(6, 500), 5 if ctx.quick else 90),
         "mixed": (ctx.n(6, 700), 5 if ctx.quick else 110),
     }
-    n_fresh = [ctx.n(1, 40)]
+    # (ii) in a fresh interpreter (about 2 s each): quick 1 case, thorough 8 per stratum
+    # (plus one per stratum and round in the extended search after a broken proof obligation)
+    n_fresh = {name: (8 if not ctx.quick else (1 if name == "archives" else 0)) for name in plan}
+    hard_limit = 30 if ctx.quick else 570  # s of wall time after which failures are no longer shrunk / sought
     seen_sigs = {}
 
     def case_id(case):
@@ -927,11 +926,15 @@ def run(ctx):
         seen = [0]
 
         def runner(case):
+            if seen_sigs and ctx.elapsed() > hard_limit:
+                ctx.count("time-limit-skip")
+                return None
             seen[0] += 1
-            if n_fresh[0] > 0 and "fresh" not in case and "case_index" in case and not has_pycma(case) \
+            base = name.split("-")[0]
+            if n_fresh.get(base, 0) > 0 and "fresh" not in case and "case_index" in case and not has_pycma(case) \
                     and seen[0] % 7 == 3:
                 case["fresh"] = True  # (ii) additionally resumes this case in a fresh interpreter
-                n_fresh[0] -= 1
+                n_fresh[base] -= 1
             f = run_case(case, ctx)
             if f is not None:
                 # report each distinct failure once (same archive kind / centroid method / failing observable)
@@ -972,6 +975,7 @@ def run(ctx):
                 left = limit - ctx.elapsed()
                 if left <= 1:
                     break
+                n_fresh[name] += 1
                 ctx.explore(f"{name}-extended{rnd}", gens[name], make_runner(name), plan[name][0],
                             nontrivial=lambda c: False, shrink_key="ops", time_budget=min(left, plan[name][1]),
                             max_fail=4)
@@ -990,7 +994,7 @@ def run(ctx):
         ctx.notes.append(f"warning: {rejected} of {ctx.evaluations} generated pipelines were rejected by pyribs")
     uniq, kept = set(), []
     for f, c in ctx.failures:
-        sig = signature(c, f, final=True) if "archive" in c else ("site-table",)
+        sig = signature(c, f) if "archive" in c else ("site-table",)
         if sig in uniq:
             ctx.count("duplicate-failure-suppressed")
             continue
